@@ -27,6 +27,8 @@ func runC17(c *Ctx) {
 	r.Rule("H2", "-o=shell names: mapper yields only [A-Za-z0-9_], root key prefixed unless it starts with [A-Za-z_]", 4)
 	r.Rule("H3", "-o=shell values: bare only if all runes in [A-Za-z0-9_]; else single-quoted with a valid quote idiom", 2)
 	r.Rule("H4", "scalar text reaches output only through a sanitiser", 3)
+	ruleF1(c, "H5", 100)
+	ruleF2(c, "H6")
 	pk := c.P.lib()
 	info := pk.TypesInfo
 	inert := rsFromString(posixInert)
